@@ -31,6 +31,21 @@ def oracle_c01(c, a, b):
 def oracle_c02(c, a, b):
     """both directions against the independent executable statement of the policy (refdec.wellformed)"""
     w = c.split(" ")
+    if w[0] == "checkc":
+        if bad_outcome(a):
+            return "name check did not return: %s" % outcome(a)
+        p = b"" if w[1] == "-" else bytes.fromhex(w[1])
+        try:
+            e = refdec.wf_name(p, int(w[2]))
+            if a != "ok %d" % e:
+                return "a well-formed name was not accepted as such (%s, expected end %d)" % (a, e)
+        except refdec.IllFormed as ex:
+            if outcome(a) == "ok":
+                return "accepted a name that is not well-formed under the policy: %s" % ex
+        except IndexError:
+            if outcome(a) == "ok":
+                return "accepted a name that reads outside the buffer"
+        return None
     if w[0] != "parse":
         return None
     if bad_outcome(a):
@@ -674,6 +689,7 @@ PROPS = {
         "families": [
             {"name": "boundary-parse", "quick": 0, "thorough": 0, "fixed": True},
             {"name": "parse", "quick": 8000, "thorough": 400000},
+            {"name": "names", "quick": 6000, "thorough": 300000},
         ],
         "oracle": oracle_c02,
         "nontrivial": nontrivial_parse,
